@@ -64,8 +64,13 @@ func VerifH_C16_KeySwitch() {
 						vAssert(cks.AggregateShares(shares[i], agg2, &agg2) == nil, tag+"-aggregate-no-error")
 					}
 					vAssertPolyEq(rQ, agg.Value, agg2.Value, tag+"-aggregate-independent-of-order")
+					// (the input carries non-default plaintext metadata: the receiver must take all of it)
+					ct.Scale = rlwe.NewScale(11)
+					ct.IsBatched = true
+					ct.LogDimensions.Cols = 2
 					out := rlwe.NewCiphertext(params, 1, level)
 					cks.KeySwitch(ct, agg, out)
+					vAssert(out.Scale.Cmp(ct.Scale) == 0 && out.IsBatched == ct.IsBatched && out.LogDimensions == ct.LogDimensions && out.IsNTT == ct.IsNTT, tag+"-collective-key-switch-hands-over-the-metadata")
 					vAssertNoiseFree(rQ, vDecrypt(c, c.DecOut, out), want, params.NTTFlag(), 30, tag+"-collective-key-switch-preserves-the-message")
 					if level == 0 {
 						break
@@ -99,8 +104,12 @@ func VerifH_C16_PublicKeySwitch() {
 			pcks := c.Parties[0].PCKS
 			agg := pcks.AllocateShare(level)
 			vAssert(pcks.AggregateShares(shares[0], shares[1], &agg) == nil, tag+"-aggregate-no-error")
+			ct.Scale = rlwe.NewScale(11)
+			ct.IsBatched = true
+			ct.LogDimensions.Cols = 2
 			out := rlwe.NewCiphertext(params, 1, level)
 			pcks.KeySwitch(ct, agg, out)
+			vAssert(out.Scale.Cmp(ct.Scale) == 0 && out.IsBatched == ct.IsBatched && out.LogDimensions == ct.LogDimensions && out.IsNTT == ct.IsNTT, tag+"-public-key-switch-hands-over-the-metadata")
 			vAssertNoiseFree(rQ, vDecrypt(c, c.DecOut, out), want, params.NTTFlag(), 30, tag+"-public-key-switch-preserves-the-message")
 		}
 	}
